@@ -1,0 +1,236 @@
+// Copyright 2020-2025 Buf Technologies, Inc.
+//
+// Licensed under the Apache License, Version 2.0 (the "License");
+// you may not use this file except in compliance with the License.
+// You may obtain a copy of the License at
+//
+//      http://www.apache.org/licenses/LICENSE-2.0
+//
+// Unless required by applicable law or agreed to in writing, software
+// distributed under the License is distributed on an "AS IS" BASIS,
+// WITHOUT WARRANTIES OR CONDITIONS OF ANY KIND, either express or implied.
+// See the License for the specific language governing permissions and
+// limitations under the License.
+
+//go:build verif
+
+package bufprotopluginos
+
+// Contracts for the gocv verifier (see /verif/DESIGN.md). Comment-only.
+// Spec functions, ghost variables and trusted interface contracts: /verif/specs/C17_writer.spec (prefix v_).
+//
+// C17 / C13 — the OS response writer. One in-memory bucket per output location (the absolute form of the plugin's
+// `out`), shared by every plugin that names that location, in the order AddResponse is called (configuration order);
+// nothing but the archive's parent directory is touched on disk before Close; Close flushes every bucket once.
+//
+// writeDirectory: the location's bucket is looked up / created, the response is handed to WriteResponse exactly once
+// with that bucket as BOTH the write bucket and the insertion point read bucket (so an insertion point can only see
+// files of this run, in this location), and a closer is registered exactly when a new bucket was created.
+//@ func (w *responseWriter) writeDirectory(ctx, response, outDirPath, createOutDirIfNotExists) (err)
+//@   property C17
+//@   modifies heap responseWriter.readWriteBuckets, heap responseWriter.closers, ghost.fail, ghost.wfail, ghost.sinkPaths, ghost.sinkBuckets, ghost.lastPutOptions, ghost.buf, ghost.v_scanPos, ghost.v_match, ghost.v_ipRead, ghost.v_wrCalls
+//@   requires w.responseWriter != nil && v_cacheWf(w.readWriteBuckets)
+//@   use v_opt-carries-bucket, v_cacheWf-get, v_cacheWf-put
+//@   ensures written-once: ghost.v_wrCalls == old(ghost.v_wrCalls) + 1
+//@   ensures shared-bucket {C17 C13}: outDirPath in old(w.readWriteBuckets) ==> w.readWriteBuckets == old(w.readWriteBuckets) && w.closers == old(w.closers) && (forall b ref :: b in ghost.sinkBuckets && !(b in old(ghost.sinkBuckets)) ==> b == old(w.readWriteBuckets)[outDirPath])
+//@   ensures new-bucket: !(outDirPath in old(w.readWriteBuckets)) && err == nil ==> outDirPath in w.readWriteBuckets && (forall b ref :: b == w.readWriteBuckets[outDirPath] ==> !old(allocated(b)))
+//@   ensures others-kept: forall k string :: k != outDirPath ==> ((k in w.readWriteBuckets) <==> (k in old(w.readWriteBuckets))) && w.readWriteBuckets[k] == old(w.readWriteBuckets)[k]
+//@   ensures new-closer: !(outDirPath in old(w.readWriteBuckets)) && err == nil ==> len(w.closers) == len(old(w.closers)) + 1 && (forall j int :: 0 <= j && j < len(old(w.closers)) ==> w.closers[j] == old(w.closers)[j])
+//@   ensures failed-not-registered: !(outDirPath in old(w.readWriteBuckets)) && err != nil ==> w.readWriteBuckets == old(w.readWriteBuckets) && w.closers == old(w.closers)
+//@   ensures only-a-new-bucket {C17 C13}: !(outDirPath in old(w.readWriteBuckets)) ==> (forall b ref :: b in ghost.sinkBuckets && !(b in old(ghost.sinkBuckets)) ==> !old(allocated(b)) && (err == nil ==> b == w.readWriteBuckets[outDirPath]))
+//@   ensures names-only {C17 C13}: forall q string :: q in ghost.sinkPaths && !(q in old(ghost.sinkPaths)) ==> (exists i int :: 0 <= i && i < len(response.File) && q == response.File[i].GetName())
+//@   ensures mem-bucket {C17 C13}: v_cacheWf(w.readWriteBuckets)
+//@   ensures reported: ghost.fail && !old(ghost.fail) ==> err != nil
+//@   ensures write-reported: ghost.wfail && !old(ghost.wfail) ==> err != nil
+//@   closure 0 ensures flush-reported: ghost.fail && !old(ghost.fail) ==> r != nil
+//@   closure 0 ensures flush-write-reported: ghost.wfail && !old(ghost.wfail) ==> r != nil
+//@   closure 0 ensures flush-location {C17 C13}: forall q string :: q in ghost.v_osRoots && !(q in old(ghost.v_osRoots)) ==> q == outDirPath
+//@   closure 0 ensures flush-mkdir-location {C17 C13}: forall q string :: q in ghost.j_osWrite && !(q in old(ghost.j_osWrite)) ==> q == outDirPath && createOutDirIfNotExists
+//@   canary ensures err != nil
+//@   canary ensures err == nil
+//
+// writeZip (.jar / .zip): the same bookkeeping keyed by the archive file path; before the first response for an
+// archive its parent directory is stat'ed (and created when asked to) — the only disk effect before Close; a .jar
+// gets the manifest first. ghost.v_statErr: what os.Stat said about the parent directory.
+//   missing-dir-created-then-used is the documented meaning of createOutDirIfNotExists ("If set, create directories if
+//   they don't already exist"): once the missing directory has been created the response is taken like any other.
+//@ func (w *responseWriter) writeZip(ctx, response, outFilePath, includeManifest, createOutDirIfNotExists) (retErr)
+//@   property C17
+//@   modifies heap responseWriter.readWriteBuckets, heap responseWriter.closers, ghost.fail, ghost.wfail, ghost.sinkPaths, ghost.sinkBuckets, ghost.lastPutOptions, ghost.buf, ghost.v_scanPos, ghost.v_match, ghost.v_ipRead, ghost.v_wrCalls, ghost.j_osStat, ghost.j_osWrite, ghost.v_statErr
+//@   requires w.responseWriter != nil && v_cacheWf(w.readWriteBuckets)
+//@   use v_opt-carries-bucket, v_cacheWf-get, v_cacheWf-put
+//@   ghost after "fileInfo, err := os.Stat(outDirPath)" v_statErr := err
+//@   ensures written-once: retErr == nil ==> ghost.v_wrCalls == old(ghost.v_wrCalls) + 1
+//@   ensures written-at-most-once: ghost.v_wrCalls == old(ghost.v_wrCalls) || ghost.v_wrCalls == old(ghost.v_wrCalls) + 1
+//@   ensures missing-dir-created-then-used: !(outFilePath in old(w.readWriteBuckets)) && createOutDirIfNotExists && ghost.v_statErr != nil && os.IsNotExist(ghost.v_statErr) && !ghost.wfail ==> ghost.v_wrCalls == old(ghost.v_wrCalls) + 1
+//@   ensures shared-bucket {C17 C13}: outFilePath in old(w.readWriteBuckets) ==> w.readWriteBuckets == old(w.readWriteBuckets) && w.closers == old(w.closers) && ghost.v_wrCalls == old(ghost.v_wrCalls) + 1 && (forall b ref :: b in ghost.sinkBuckets && !(b in old(ghost.sinkBuckets)) ==> b == old(w.readWriteBuckets)[outFilePath])
+//@   ensures shared-bucket-no-disk {C17 C13}: outFilePath in old(w.readWriteBuckets) ==> ghost.j_osStat == old(ghost.j_osStat) && ghost.j_osWrite == old(ghost.j_osWrite)
+//@   ensures new-bucket: !(outFilePath in old(w.readWriteBuckets)) && retErr == nil ==> outFilePath in w.readWriteBuckets && (forall b ref :: b == w.readWriteBuckets[outFilePath] ==> !old(allocated(b)))
+//@   ensures others-kept: forall k string :: k != outFilePath ==> ((k in w.readWriteBuckets) <==> (k in old(w.readWriteBuckets))) && w.readWriteBuckets[k] == old(w.readWriteBuckets)[k]
+//@   ensures new-closer: !(outFilePath in old(w.readWriteBuckets)) && retErr == nil ==> len(w.closers) == len(old(w.closers)) + 1 && (forall j int :: 0 <= j && j < len(old(w.closers)) ==> w.closers[j] == old(w.closers)[j])
+//@   ensures failed-not-registered: !(outFilePath in old(w.readWriteBuckets)) && retErr != nil ==> w.readWriteBuckets == old(w.readWriteBuckets) && w.closers == old(w.closers)
+//@   ensures only-a-new-bucket {C17 C13}: !(outFilePath in old(w.readWriteBuckets)) ==> (forall b ref :: b in ghost.sinkBuckets && !(b in old(ghost.sinkBuckets)) ==> !old(allocated(b)) && (retErr == nil ==> b == w.readWriteBuckets[outFilePath]))
+//@   ensures names-only {C17 C13}: forall q string :: q in ghost.sinkPaths && !(q in old(ghost.sinkPaths)) ==> (includeManifest && q == manifestPath) || (exists i int :: 0 <= i && i < len(response.File) && q == response.File[i].GetName())
+//@   ensures jar-manifest: includeManifest && !(outFilePath in old(w.readWriteBuckets)) && retErr == nil ==> manifestPath in ghost.sinkPaths
+//@   ensures parent-dir-only-stat {C17 C13}: forall q string :: q in ghost.j_osStat && !(q in old(ghost.j_osStat)) ==> q == filepath.Dir(outFilePath)
+//@   ensures parent-dir-only-mkdir {C17 C13}: forall q string :: q in ghost.j_osWrite && !(q in old(ghost.j_osWrite)) ==> q == filepath.Dir(outFilePath) && createOutDirIfNotExists
+//@   ensures mem-bucket {C17 C13}: v_cacheWf(w.readWriteBuckets)
+//@   ensures reported: ghost.fail && !old(ghost.fail) ==> retErr != nil
+//@   ensures write-reported: ghost.wfail && !old(ghost.wfail) ==> retErr != nil
+//@   closure 0 ensures flush-reported: ghost.fail && !old(ghost.fail) ==> retErr != nil
+//@   closure 0 ensures flush-write-reported: ghost.wfail && !old(ghost.wfail) ==> retErr != nil
+//@   closure 0 ensures flush-location {C17 C13}: forall q string :: q in ghost.j_osWrite && !(q in old(ghost.j_osWrite)) ==> q == outFilePath
+//@   canary ensures retErr != nil
+//@   canary ensures retErr == nil
+//
+// addResponse: archive vs directory is decided by the extension of the (absolute) output location, exactly as the
+// interface documents (".jar": jar with manifest, ".zip": zip, anything else: directory). A directory location touches
+// nothing on disk before Close. In every case: one bucket per location, shared, response handed over at most once.
+//@ func (w *responseWriter) addResponse(ctx, response, pluginOut, createOutDirIfNotExists) (err)
+//@   property C17
+//@   modifies heap responseWriter.readWriteBuckets, heap responseWriter.closers, ghost.fail, ghost.wfail, ghost.sinkPaths, ghost.sinkBuckets, ghost.lastPutOptions, ghost.buf, ghost.v_scanPos, ghost.v_match, ghost.v_ipRead, ghost.v_wrCalls, ghost.j_osStat, ghost.j_osWrite, ghost.v_statErr
+//@   requires w.responseWriter != nil && v_cacheWf(w.readWriteBuckets)
+//@   ensures written-once: err == nil ==> ghost.v_wrCalls == old(ghost.v_wrCalls) + 1
+//@   ensures written-at-most-once: ghost.v_wrCalls == old(ghost.v_wrCalls) || ghost.v_wrCalls == old(ghost.v_wrCalls) + 1
+//@   ensures directory-no-disk {C17 C13}: filepath.Ext(pluginOut) != ".jar" && filepath.Ext(pluginOut) != ".zip" ==> ghost.j_osStat == old(ghost.j_osStat) && ghost.j_osWrite == old(ghost.j_osWrite) && ghost.v_wrCalls == old(ghost.v_wrCalls) + 1
+//@   ensures archive-parent-only {C17 C13}: (forall q string :: q in ghost.j_osStat && !(q in old(ghost.j_osStat)) ==> q == filepath.Dir(pluginOut)) && (forall q string :: q in ghost.j_osWrite && !(q in old(ghost.j_osWrite)) ==> q == filepath.Dir(pluginOut) && createOutDirIfNotExists)
+//@   ensures jar-manifest: filepath.Ext(pluginOut) == ".jar" && !(pluginOut in old(w.readWriteBuckets)) && err == nil ==> manifestPath in ghost.sinkPaths
+//@   ensures names-only {C17 C13}: forall q string :: q in ghost.sinkPaths && !(q in old(ghost.sinkPaths)) ==> (filepath.Ext(pluginOut) == ".jar" && q == manifestPath) || (exists i int :: 0 <= i && i < len(response.File) && q == response.File[i].GetName())
+//@   ensures shared-bucket {C17 C13}: pluginOut in old(w.readWriteBuckets) ==> w.readWriteBuckets == old(w.readWriteBuckets) && w.closers == old(w.closers) && ghost.v_wrCalls == old(ghost.v_wrCalls) + 1 && ghost.j_osStat == old(ghost.j_osStat) && ghost.j_osWrite == old(ghost.j_osWrite) && (forall b ref :: b in ghost.sinkBuckets && !(b in old(ghost.sinkBuckets)) ==> b == old(w.readWriteBuckets)[pluginOut])
+//@   ensures new-bucket: !(pluginOut in old(w.readWriteBuckets)) && err == nil ==> pluginOut in w.readWriteBuckets && (forall b ref :: b == w.readWriteBuckets[pluginOut] ==> !old(allocated(b)))
+//@   ensures others-kept: forall k string :: k != pluginOut ==> ((k in w.readWriteBuckets) <==> (k in old(w.readWriteBuckets))) && w.readWriteBuckets[k] == old(w.readWriteBuckets)[k]
+//@   ensures new-closer: !(pluginOut in old(w.readWriteBuckets)) && err == nil ==> len(w.closers) == len(old(w.closers)) + 1 && (forall j int :: 0 <= j && j < len(old(w.closers)) ==> w.closers[j] == old(w.closers)[j])
+//@   ensures failed-not-registered: !(pluginOut in old(w.readWriteBuckets)) && err != nil ==> w.readWriteBuckets == old(w.readWriteBuckets) && w.closers == old(w.closers)
+//@   ensures only-a-new-bucket {C17 C13}: !(pluginOut in old(w.readWriteBuckets)) ==> (forall b ref :: b in ghost.sinkBuckets && !(b in old(ghost.sinkBuckets)) ==> !old(allocated(b)) && (err == nil ==> b == w.readWriteBuckets[pluginOut]))
+//@   ensures mem-bucket {C17 C13}: v_cacheWf(w.readWriteBuckets)
+//@   ensures reported: ghost.fail && !old(ghost.fail) ==> err != nil
+//@   ensures write-reported: ghost.wfail && !old(ghost.wfail) ==> err != nil
+//@   canary ensures err != nil
+//@   canary ensures err == nil
+//
+// AddResponse: the cache key is the ABSOLUTE form of the plugin's out ("gen", "./gen/" and "$PWD/gen" share one
+// bucket, so a later plugin's insertion points see an earlier plugin's files whichever way the directory was spelled).
+//@ func (w *responseWriter) AddResponse(ctx, response, pluginOut) (err)
+//@   property C17
+//@   modifies heap responseWriter.readWriteBuckets, heap responseWriter.closers, ghost.fail, ghost.wfail, ghost.sinkPaths, ghost.sinkBuckets, ghost.lastPutOptions, ghost.buf, ghost.v_scanPos, ghost.v_match, ghost.v_ipRead, ghost.v_wrCalls, ghost.j_osStat, ghost.j_osWrite, ghost.v_statErr
+//@   requires w.responseWriter != nil && v_cacheWf(w.readWriteBuckets)
+//@   ensures abs-failure: second(filepath.Abs(pluginOut)) != nil ==> err != nil && w.readWriteBuckets == old(w.readWriteBuckets) && w.closers == old(w.closers) && ghost.v_wrCalls == old(ghost.v_wrCalls) && ghost.sinkPaths == old(ghost.sinkPaths)
+//@   ensures written-once: err == nil ==> ghost.v_wrCalls == old(ghost.v_wrCalls) + 1
+//@   ensures written-at-most-once: ghost.v_wrCalls == old(ghost.v_wrCalls) || ghost.v_wrCalls == old(ghost.v_wrCalls) + 1
+//@   ensures keyed-by-absolute-out {C17 C13}: err == nil ==> first(filepath.Abs(pluginOut)) in w.readWriteBuckets
+//@   ensures shared-bucket {C17 C13}: first(filepath.Abs(pluginOut)) in old(w.readWriteBuckets) && second(filepath.Abs(pluginOut)) == nil ==> w.readWriteBuckets == old(w.readWriteBuckets) && w.closers == old(w.closers) && ghost.v_wrCalls == old(ghost.v_wrCalls) + 1 && (forall b ref :: b in ghost.sinkBuckets && !(b in old(ghost.sinkBuckets)) ==> b == old(w.readWriteBuckets)[first(filepath.Abs(pluginOut))])
+//@   ensures new-bucket: !(first(filepath.Abs(pluginOut)) in old(w.readWriteBuckets)) && err == nil ==> (forall b ref :: b == w.readWriteBuckets[first(filepath.Abs(pluginOut))] ==> !old(allocated(b)))
+//@   ensures others-kept: forall k string :: k != first(filepath.Abs(pluginOut)) ==> ((k in w.readWriteBuckets) <==> (k in old(w.readWriteBuckets))) && w.readWriteBuckets[k] == old(w.readWriteBuckets)[k]
+//@   ensures new-closer: !(first(filepath.Abs(pluginOut)) in old(w.readWriteBuckets)) && err == nil ==> len(w.closers) == len(old(w.closers)) + 1 && (forall j int :: 0 <= j && j < len(old(w.closers)) ==> w.closers[j] == old(w.closers)[j])
+//@   ensures failed-not-registered: !(first(filepath.Abs(pluginOut)) in old(w.readWriteBuckets)) && err != nil ==> w.readWriteBuckets == old(w.readWriteBuckets) && w.closers == old(w.closers)
+//@   ensures only-cached-or-new-buckets {C17 C13}: forall b ref :: b in ghost.sinkBuckets && !(b in old(ghost.sinkBuckets)) ==> !old(allocated(b)) || (first(filepath.Abs(pluginOut)) in old(w.readWriteBuckets) && b == old(w.readWriteBuckets)[first(filepath.Abs(pluginOut))])
+//@   ensures names-only {C17 C13}: forall q string :: q in ghost.sinkPaths && !(q in old(ghost.sinkPaths)) ==> (filepath.Ext(first(filepath.Abs(pluginOut))) == ".jar" && q == manifestPath) || (exists i int :: 0 <= i && i < len(response.File) && q == response.File[i].GetName())
+//@   ensures no-file-on-disk-yet {C17 C13}: (forall q string :: q in ghost.j_osWrite && !(q in old(ghost.j_osWrite)) ==> q == filepath.Dir(first(filepath.Abs(pluginOut))) && w.createOutDirIfNotExists && (filepath.Ext(first(filepath.Abs(pluginOut))) == ".jar" || filepath.Ext(first(filepath.Abs(pluginOut))) == ".zip"))
+//@   ensures mem-bucket {C17 C13}: v_cacheWf(w.readWriteBuckets)
+//@   ensures reported: ghost.fail && !old(ghost.fail) ==> err != nil
+//@   ensures write-reported: ghost.wfail && !old(ghost.wfail) ==> err != nil
+//@   canary ensures err != nil
+//@   canary ensures err == nil
+//
+// A new writer has an empty cache and nothing to flush.
+//@ inline func newResponseWriterOptions
+//@ func newResponseWriter(logger, storageosProvider, options) (r)
+//@   property C17
+//@   modifies heap
+//@   use v_cacheWf-empty
+//@   ensures r != nil && r.responseWriter != nil
+//@   ensures empty-cache: len(r.readWriteBuckets) == 0 && v_cacheWf(r.readWriteBuckets)
+//@   ensures no-closers: len(r.closers) == 0
+//@   ensures no-options-no-mkdir: len(options) == 0 ==> !r.createOutDirIfNotExists
+//@   loop 0 invariant $i == 0 ==> !responseWriterOptions.createOutDirIfNotExists
+//
+// Close flushes: the registered closers are called in registration order (= the order in which output locations first
+// appeared = configuration order) and nothing else is; the first failure stops the flush and is returned; after a
+// complete flush the cache is empty again. "Exactly once" is stated for pairwise distinct closers (function values
+// have no identity the engine could use to prove two closures distinct).
+//@ func (w *responseWriter) Close() (err)
+//@   property C17
+//@   modifies heap, ghost.fail, ghost.wfail, ghost.cbCalls, ghost.cbArgs, ghost.cbArg0, ghost.cbArg1, ghost.cbArg2, ghost.cbArg3
+//@   use v_cacheWf-empty
+//@   ensures reported: ghost.fail && !old(ghost.fail) ==> err != nil
+//@   ensures write-reported: ghost.wfail && !old(ghost.wfail) ==> err != nil
+//@   ensures all-flushed: err == nil ==> (forall j int :: 0 <= j && j < len(old(w.closers)) ==> ghost.cbCalls[old(w.closers)[j]] > old(ghost.cbCalls)[old(w.closers)[j]])
+//@   ensures each-exactly-once: err == nil && (forall i int, j int :: 0 <= i && i < j && j < len(old(w.closers)) ==> old(w.closers)[i] != old(w.closers)[j]) ==> (forall j int :: 0 <= j && j < len(old(w.closers)) ==> ghost.cbCalls[old(w.closers)[j]] == old(ghost.cbCalls)[old(w.closers)[j]] + 1)
+//@   ensures only-closers-called: forall f ref :: (forall j int :: 0 <= j && j < len(old(w.closers)) ==> old(w.closers)[j] != f) ==> ghost.cbCalls[f] == old(ghost.cbCalls)[f]
+//@   ensures reset: err == nil ==> len(w.readWriteBuckets) == 0 && len(w.closers) == 0 && v_cacheWf(w.readWriteBuckets)
+//@   loop 0 invariant forall j int :: 0 <= j && j < $i ==> ghost.cbCalls[old(w.closers)[j]] > old(ghost.cbCalls)[old(w.closers)[j]]
+//@   loop 0 invariant (forall i int, j int :: 0 <= i && i < j && j < len(old(w.closers)) ==> old(w.closers)[i] != old(w.closers)[j]) ==> (forall j int :: 0 <= j && j < len(old(w.closers)) ==> ghost.cbCalls[old(w.closers)[j]] == old(ghost.cbCalls)[old(w.closers)[j]] + ite(j < $i, 1, 0))
+//@   loop 0 invariant forall f ref :: (forall j int :: 0 <= j && j < len(old(w.closers)) ==> old(w.closers)[j] != f) ==> ghost.cbCalls[f] == old(ghost.cbCalls)[f]
+//@   loop 0 invariant forall f ref :: ghost.cbCalls[f] >= old(ghost.cbCalls)[f]
+//@   loop 0 invariant ghost.fail ==> old(ghost.fail)
+//@   loop 0 invariant ghost.wfail ==> old(ghost.wfail)
+//@   canary ensures err != nil
+//@   canary ensures err == nil
+//
+// ---- cleaner.go (C17 / C13): --clean removes the declared output locations and nothing else; the current directory
+// is never one of them, however it is spelled (".", an absolute path, a path through a symlink).
+//
+//@ pure func reallyCleanPath(path) (r, err)
+//@   property C17
+//@   reveal v_realPath, v_realErr
+//@   ensures resolved {C17 C13}: err == nil ==> r == v_realPath(path)
+//@   ensures err == v_realErr(path)
+//
+// validatePluginOut: "" and "." are refused outright; a location that resolves (symlinks included) to the working
+// directory is refused; a location that cannot be resolved is accepted only when it does not exist (nothing to remove).
+//@ func validatePluginOut(pwd, pluginOut) (err)
+//@   property C17
+//@   ensures empty-refused {C17 C13}: pluginOut == "" ==> err != nil
+//@   ensures dot-refused {C17 C13}: pluginOut == "." ==> err != nil
+//@   ensures cwd-refused {C17 C13}: v_realErr(pluginOut) == nil && v_realPath(pluginOut) == pwd ==> err != nil
+//@   ensures unresolvable-refused {C17 C13}: v_realErr(pluginOut) != nil && !errors.Is(v_realErr(pluginOut), fs.ErrNotExist) ==> err != nil
+//@   ensures otherwise-accepted: pluginOut != "" && pluginOut != "." && ((v_realErr(pluginOut) == nil && v_realPath(pluginOut) != pwd) || (v_realErr(pluginOut) != nil && errors.Is(v_realErr(pluginOut), fs.ErrNotExist))) ==> err == nil
+//
+// deleteOut opens exactly one disk bucket, rooted at the location (directory output) or at its parent (archive), and
+// calls DeleteAll exactly for "." resp. the archive's base name on it; a missing location is not an error.
+//@ func (c *cleaner) deleteOut(ctx, pluginOut) (err)
+//@   property C17
+//@   modifies ghost.fail, ghost.wfail, ghost.sinkPaths, ghost.sinkBuckets, ghost.j_osStat, ghost.v_osRoots
+//@   requires c.storageosProvider != nil
+//@   reveal v_cleanRoot, v_cleanEntry, v_isArchive
+//@   ensures one-root {C17 C13}: ghost.v_osRoots == add(old(ghost.v_osRoots), v_cleanRoot(pluginOut))
+//@   ensures one-entry {C17 C13}: forall q string :: q in ghost.sinkPaths && !(q in old(ghost.sinkPaths)) ==> q == v_cleanEntry(pluginOut)
+//@   ensures on-that-bucket {C17 C13}: forall b ref :: b in ghost.sinkBuckets && !(b in old(ghost.sinkBuckets)) ==> v_osRoot(b) == v_cleanRoot(pluginOut)
+//@   ensures write-reported: ghost.wfail && !old(ghost.wfail) ==> err != nil
+//@   canary ensures err != nil
+//@   canary ensures err == nil
+//
+// DeleteOuts: every location is validated BEFORE anything is removed; what is removed are exactly the declared
+// locations, in order.
+//@ func (c *cleaner) DeleteOuts(ctx, pluginOuts) (err)
+//@   property C17
+//@   modifies ghost.fail, ghost.wfail, ghost.sinkPaths, ghost.sinkBuckets, ghost.j_osStat, ghost.v_osRoots
+//@   requires c.storageosProvider != nil
+//@   ensures invalid-location-nothing-removed {C17 C13}: (exists i int :: 0 <= i && i < len(pluginOuts) && (pluginOuts[i] == "" || pluginOuts[i] == ".")) ==> err != nil && ghost.v_osRoots == old(ghost.v_osRoots) && ghost.sinkPaths == old(ghost.sinkPaths) && ghost.sinkBuckets == old(ghost.sinkBuckets)
+//@   ensures only-declared-locations {C17 C13}: forall q string :: q in ghost.v_osRoots && !(q in old(ghost.v_osRoots)) ==> (exists i int :: 0 <= i && i < len(pluginOuts) && q == v_cleanRoot(pluginOuts[i]))
+//@   ensures only-declared-entries {C17 C13}: forall q string :: q in ghost.sinkPaths && !(q in old(ghost.sinkPaths)) ==> (exists i int :: 0 <= i && i < len(pluginOuts) && q == v_cleanEntry(pluginOuts[i]))
+//@   ensures on-declared-buckets {C17 C13}: forall b ref :: b in ghost.sinkBuckets && !(b in old(ghost.sinkBuckets)) ==> (exists i int :: 0 <= i && i < len(pluginOuts) && v_osRoot(b) == v_cleanRoot(pluginOuts[i]))
+//@   ensures all-removed: err == nil ==> (forall i int :: 0 <= i && i < len(pluginOuts) ==> v_cleanRoot(pluginOuts[i]) in ghost.v_osRoots)
+//@   ensures never-the-working-directory {C17 C13}: err == nil ==> (forall i int :: 0 <= i && i < len(pluginOuts) ==> pluginOuts[i] != "" && pluginOuts[i] != ".")
+//@   ensures write-reported: ghost.wfail && !old(ghost.wfail) ==> err != nil
+//@   loop 0 invariant ghost.v_osRoots == old(ghost.v_osRoots) && ghost.sinkPaths == old(ghost.sinkPaths) && ghost.sinkBuckets == old(ghost.sinkBuckets) && ghost.wfail == old(ghost.wfail)
+//@   loop 0 invariant forall i int :: 0 <= i && i < $i ==> pluginOuts[i] != "" && pluginOuts[i] != "."
+//@   loop 1 invariant forall q string :: q in ghost.v_osRoots && !(q in old(ghost.v_osRoots)) ==> (exists i int :: 0 <= i && i < $i && q == v_cleanRoot(pluginOuts[i]))
+//@   loop 1 invariant forall q string :: q in ghost.sinkPaths && !(q in old(ghost.sinkPaths)) ==> (exists i int :: 0 <= i && i < $i && q == v_cleanEntry(pluginOuts[i]))
+//@   loop 1 invariant forall b ref :: b in ghost.sinkBuckets && !(b in old(ghost.sinkBuckets)) ==> (exists i int :: 0 <= i && i < $i && v_osRoot(b) == v_cleanRoot(pluginOuts[i]))
+//@   loop 1 invariant forall i int :: 0 <= i && i < $i ==> v_cleanRoot(pluginOuts[i]) in ghost.v_osRoots
+//@   loop 1 invariant forall q string :: q in old(ghost.v_osRoots) ==> q in ghost.v_osRoots
+//@   loop 1 invariant ghost.wfail ==> old(ghost.wfail)
+//@   canary ensures err != nil
+//@   canary ensures err == nil
+//
+//@ func NewResponseWriter(logger, storageosProvider, options) (r)
+//@   property C17
+//@   modifies heap
+//@   ensures r != nil
+//@ func NewCleaner(storageosProvider) (r)
+//@   property C17
+//@   ensures r != nil
+//@ func newCleaner(storageosProvider) (r)
+//@   property C17
+//@   ensures r != nil && r.storageosProvider == storageosProvider
